@@ -114,7 +114,7 @@ Inductive dspec : Type :=
 
 Definition mk_dist (d : dspec) (g : rng) : res (dobj (K:=dy)) :=
   match d with
-  | SConst v => mk_const v g
+  | SConst v => mk_const v
   | STopHat lo hi => mk_tophat dops lo hi g
   | SGauss c dv lo hi => mk_gauss dops c dv lo hi g
   end.
